@@ -19,7 +19,8 @@
     Why _partial: (i) MiniPy is a fragment of Python (no f-strings, statements, attribute access, arithmetic other than //,
     user classes with comparison methods) and its evaluator a model of CPython (validated against CPython on every run,
     never proved): e.g. use-set-literal needs no SEMANTIC guard on MiniPy, but inside an f-string replacement field the
-    display's `{` joins the field's `{` (finding kf_set_literal_fstring_braces, searched by the f-string family);
+    display's `{` joins the field's `{` (finding kf_set_literal_fstring_braces, searched by the f-string family; the same happens to invert-boolean-check when
+    `not ` is dropped in front of a display: finding kf_invert_fstring_braces, C01_kernel_invert_brace_first);
     (ii) the other refactoring codemods named by the property have no model: the harness only searches them;
     (iii) that the repaired folds/inversions never lose parentheses ([parses_as_built (rw e)]) is a premise checked per
     case, not a theorem. *)
